@@ -52,6 +52,7 @@ fn main() {
         };
         let mut ev = json!({"id": id, "rows": snap.rows.len(), "nw": snap.witnesses.len(), "ret": ret,
                             "verify": "n/a"});
+        let mut keys: Option<(Prover, Verifier)> = None;
         // "sweep": perturb-and-propagate adversary over the witnesses the LAST op
         // allocated (sampled by the seed): one extra output line per variant
         let mut variants: Vec<(usize, Program)> = Vec::new();
@@ -114,6 +115,7 @@ fn main() {
                             let v = guarded(|| verifier.verify(proof, pis));
                             ev["verify"] = json!(outcome(&v));
                         }
+                        keys = Some((prover, verifier));
                     }
                     other => {
                         ev["res"] = json!(format!("compile:{}", outcome(&other)));
@@ -135,11 +137,10 @@ fn main() {
             let mut ev = json!({"id": id, "variant": w, "ret": retv, "verify": "n/a"});
             match composed {
                 Ok(Ok(())) => {
-                    let pp = pps.get(&cap).expect("pp");
-                    let circ_c = ScriptedCircuit::new(prog.clone());
+                    // the keys compiled for the honest instance of the same program
                     let circ = ScriptedCircuit::new(vp.clone());
-                    match guarded(|| Compiler::compile_with_circuit(pp, b"gadget", &circ_c)) {
-                        Ok(Ok((prover, verifier))) => {
+                    match &keys {
+                        Some((prover, verifier)) => {
                             let mut rng = ScriptRng::seeded(seed);
                             let r = guarded(|| prover.prove(&mut rng, &circ));
                             ev["res"] = json!(outcome(&r));
@@ -148,7 +149,7 @@ fn main() {
                                 ev["verify"] = json!(outcome(&v));
                             }
                         }
-                        other => ev["res"] = json!(format!("compile:{}", outcome(&other))),
+                        None => ev["res"] = json!("compile:none"),
                     }
                 }
                 Ok(Err(RunError::Lib(e))) => ev["res"] = json!(format!("err:{}", err_class(&e))),
